@@ -3,6 +3,7 @@
 package kcp
 
 import (
+	"io"
 	"bytes"
 	"fmt"
 	"strings"
@@ -125,6 +126,7 @@ func vfC09(c *hx.Ctx) {
 		c.UnitBudget = 10 * time.Second
 		c.Explore("wire-oob/cipher="+ciph, vfPairParams(cf, 0), 0, vfPairRun(cf, 0, body))
 	}
+	vfC09EntropyConcurrent(c)
 	// nonce freshness of the real entropy source
 	if c.Shard == 0 && !c.Skip("entropy") {
 		start := time.Now()
@@ -144,6 +146,68 @@ func vfC09(c *hx.Ctx) {
 		u.Samples = append(u.Samples, map[string]any{"draw": fmt.Sprintf("%x", b)})
 		u.WallS = time.Since(start).Seconds()
 		c.AddUnit(u)
+	}
+}
+
+// vfC09EntropyConcurrent: several sessions draw nonces from the one process-wide source at the same time. Every
+// interleaving of 3 threads x 2 draws (preemption bound, with an extra scheduling point after every Unlock so that code
+// which touches the generator's state after releasing its lock is exposed) — all draws must be distinct, for both
+// generator implementations and for fillRand on the package-level source.
+func vfC09EntropyConcurrent(c *hx.Ctx) {
+	for _, src := range []string{"aes", "chacha8", "default-via-fillRand"} {
+		src := src
+		run := func(e *explore.Exec) explore.Verdict {
+			var draws [][16]byte
+			var mu vrt.Mutex
+			out := hx.RunVrt(e, vrt.Config{PreemptCost: 1, TimerEarlyCost: -1, UnlockPoints: true}, func() {
+				var r io.Reader
+				switch src {
+				case "aes":
+					r = NewEntropyAES()
+				case "chacha8":
+					r = NewEntropyChacha8()
+				default:
+					SetEntropy(NewEntropy())
+				}
+				var wg vrt.WaitGroup
+				for t := 0; t < 3; t++ {
+					wg.Add(1)
+					vrt.Go(fmt.Sprintf("session%d", t), func() {
+						defer wg.Done()
+						for i := 0; i < 2; i++ {
+							var b [16]byte
+							if r != nil {
+								r.Read(b[:])
+							} else {
+								fillRand(b[:])
+							}
+							mu.Lock()
+							draws = append(draws, b)
+							mu.Unlock()
+						}
+					})
+				}
+				wg.Wait()
+			})
+			v := explore.Verdict{Outcome: out.Status.String(), NonTriv: e.Cost() > 0, Pruned: out.Status == vrt.Pruned}
+			if out.Status == vrt.Panicked {
+				v.Violation, v.Signature = out.Fail+"\n"+out.Stack, "C09:entropy-concurrent:panic"
+				return v
+			}
+			seen := map[[16]byte]bool{}
+			for _, d := range draws {
+				if seen[d] {
+					v.Violation, v.Signature = fmt.Sprintf("two concurrent draws from the %s source returned the same 16 bytes %x (of %d draws)", src, d, len(draws)), "C09:entropy-repeats:concurrent-draws"
+				}
+				seen[d] = true
+				if d == ([16]byte{}) {
+					v.Violation, v.Signature = fmt.Sprintf("a draw from the %s source returned all zero bytes", src), "C09:entropy-zero"
+				}
+			}
+			return v
+		}
+		c.UnitBudget = 10 * time.Second
+		c.Explore("entropy-concurrent/"+src, map[string]any{"threads": 3, "draws_per_thread": 2, "source": src, "scheduling_point_after_unlock": true}, hx.Pick(c, 2, 3), run)
 	}
 }
 
